@@ -1,4 +1,5 @@
 import GeffProofs.Tracklet
+import GeffProofs.TrackletRename
 /-! # C13 — tracklet validation decides the documented tracklet definition
 
 Property theorems only.  Model: `Geff.Tracklet.validateTracklets` / `trackletErrors` /
@@ -157,6 +158,121 @@ theorem C13_counterexample_uint64_message :
       = [-(2 ^ 63) + 1] ∧ ¬ InInt64 (2 ^ 63 + 1) := by
   decide
 
+/-! ## labellings up to renaming -/
+
+/-- **C13 (definition up to renaming)**: the documented tracklet definition is invariant under
+injective renamings `f` of the node ids and `g` of the tracklet ids (edges mapped with `mapEdges f`,
+the labelled node list with `Prod.map f g`) — "labellings up to renaming" in the property. -/
+theorem C13_spec_renaming {β M : Type} [DecidableEq β] [DecidableEq M]
+    (f : α → β) (g : L → M) (hf : Function.Injective f) (hg : Function.Injective g)
+    (nl : List (α × L)) (es : List (α × α)) :
+    TrackletSpec (renameNl f g nl) (mapEdges f es) ↔ TrackletSpec nl es :=
+  spec_renaming f g hf hg nl es
+
+/-- acyclicity transfers along an injective renaming, in both directions -/
+theorem C13_ranked_renaming {β : Type} [DecidableEq β] (f : α → β) (hf : Function.Injective f)
+    (es : List (α × α)) : Ranked (mapEdges f es) ↔ Ranked es := ranked_renaming f hf es
+
+/-- **C13 (verdict up to renaming)**: for an acyclic graph with unique node ids (edges may also
+mention unlabelled nodes) the validator model gives the same verdict before and after an
+injective renaming of node ids and tracklet ids, and the tracklet ids named in the messages are
+exactly the `g`-images of the ones named before, in the same order. -/
+theorem C13_verdict_renaming {β M : Type} [DecidableEq β] [DecidableEq M]
+    (f : α → β) (g : L → M) (hf : Function.Injective f) (hg : Function.Injective g)
+    (nl : List (α × L)) (es : List (α × α))
+    (hnd : (nl.map (·.1)).Nodup) (hacyc : Ranked es) :
+    validateTracklets (renameNl f g nl) (mapEdges f es) = validateTracklets nl es ∧
+    (trackletErrors (renameNl f g nl) (mapEdges f es)).map (·.1) =
+      ((trackletErrors nl es).map (·.1)).map g := by
+  have hacyc' : Ranked (mapEdges f es) := (ranked_renaming f hf es).2 hacyc
+  constructor
+  · have a := C13_iff_masked (renameNl f g nl) (mapEdges f es) (nodup_renameNl f g hf nl hnd) hacyc'
+    have b := C13_iff_masked nl es hnd hacyc
+    have c := specMasked_renaming f g hf hg nl es
+    cases h1 : validateTracklets (renameNl f g nl) (mapEdges f es) <;>
+      cases h2 : validateTracklets nl es <;> simp_all
+  · obtain ⟨rank, hr⟩ := hacyc
+    obtain ⟨rank', hr'⟩ := hacyc'
+    rw [errorIds_eq_filter, errorIds_eq_filter]
+    have hlab : (renameNl f g nl).map (·.2) = (nl.map (·.2)).map g := by
+      unfold renameNl; simp [List.map_map, Function.comp_def]
+    rw [hlab, dedup_map_injective g hg, List.filter_map]
+    congr 1
+    apply List.filter_congr
+    intro t ht
+    have htl : ∃ u, (u, t) ∈ nl := by
+      obtain ⟨⟨u, l⟩, hm, rfl⟩ := List.mem_map.1 ((mem_dedup _ _).1 ht)
+      exact ⟨u, hm⟩
+    have htl' : ∃ x, (x, g t) ∈ renameNl f g nl := by
+      obtain ⟨u, hu⟩ := htl
+      exact ⟨f u, (mem_renameNl f g nl _ _).2 ⟨u, t, hu, rfl, rfl⟩⟩
+    have key : checkTracklet (renameNl f g nl) (mapEdges f es) (g t) = .ok ↔
+        checkTracklet nl es t = .ok := by
+      constructor
+      · intro h
+        exact ok_of_good nl es t rank hr htl
+          ((good_renaming f g hf hg nl es t).1 (good_of_ok _ _ _ h))
+      · intro h
+        exact ok_of_good _ _ _ rank' hr' htl'
+          ((good_renaming f g hf hg nl es t).2 (good_of_ok _ _ _ h))
+    simp only [Function.comp, ne_eq, decide_not]
+    congr 1
+    exact decide_eq_decide.2 key
+
+/-! ## the int64 cast on uint64 ids -/
+
+def InUInt64 (x : Int) : Prop := 0 ≤ x ∧ x < 2 ^ 64
+instance (x : Int) : Decidable (InUInt64 x) := by unfold InUInt64; infer_instance
+
+/-- an injective function on all integers that agrees with the int64 cast on the uint64 range:
+it swaps the blocks [2^63, 2^64) and [−2^63, 0) -/
+def wrapSwap (x : Int) : Int :=
+  if 2 ^ 63 ≤ x ∧ x < 2 ^ 64 then x - 2 ^ 64 else if -(2 ^ 63) ≤ x ∧ x < 0 then x + 2 ^ 64 else x
+
+theorem wrapSwap_injective : Function.Injective wrapSwap := by
+  intro a b h
+  unfold wrapSwap at h
+  split at h <;> split at h <;> (try split at h) <;> (try split at h) <;> omega
+
+theorem toInt64_eq_wrapSwap (x : Int) (h : InUInt64 x) : toInt64 x = wrapSwap x := by
+  unfold toInt64 wrapSwap InUInt64 at *
+  split <;> (try split) <;> omega
+
+/-- **C13 (uint64 wrap)**: node ids, edge endpoints and tracklet ids taken from uint64 arrays (any
+values in [0, 2^64)) are cast to int64 by `validate_tracklets`; on an acyclic graph with unique
+node ids the verdict on the wrapped ids equals the verdict on the true ids, and the ids named in
+the messages are the wrapped images of the offending ones (this last part is the known finding
+`C13:uint64-id-wrapped-in-message`). -/
+theorem C13_uint64_wrap_verdict (nodes labels : List Int) (edges : List (Int × Int))
+    (hn : ∀ x ∈ nodes, InUInt64 x) (hl : ∀ x ∈ labels, InUInt64 x)
+    (he : ∀ e ∈ edges, InUInt64 e.1 ∧ InUInt64 e.2)
+    (hnd : ((nodes.zip labels).map (·.1)).Nodup) (hacyc : Ranked edges) :
+    (trackletErrorsInt64 nodes labels edges).isEmpty = validateTracklets (nodes.zip labels) edges ∧
+    (trackletErrorsInt64 nodes labels edges).map (·.1) =
+      ((trackletErrors (nodes.zip labels) edges).map (·.1)).map toInt64 := by
+  have h1 : nodes.map toInt64 = nodes.map wrapSwap :=
+    List.map_congr_left fun x hx => toInt64_eq_wrapSwap x (hn x hx)
+  have h2 : labels.map toInt64 = labels.map wrapSwap :=
+    List.map_congr_left fun x hx => toInt64_eq_wrapSwap x (hl x hx)
+  have h3 : edges.map (fun e => (toInt64 e.1, toInt64 e.2)) = mapEdges wrapSwap edges := by
+    unfold mapEdges
+    apply List.map_congr_left
+    intro e hm
+    rw [toInt64_eq_wrapSwap _ (he e hm).1, toInt64_eq_wrapSwap _ (he e hm).2]; rfl
+  have h4 : (nodes.map wrapSwap).zip (labels.map wrapSwap) = renameNl wrapSwap wrapSwap (nodes.zip labels) := by
+    unfold renameNl; rw [List.zip_map]
+  obtain ⟨hv, hids⟩ := C13_verdict_renaming wrapSwap wrapSwap wrapSwap_injective wrapSwap_injective
+    (nodes.zip labels) edges hnd hacyc
+  unfold trackletErrorsInt64
+  rw [h1, h2, h3, h4]
+  refine ⟨hv, ?_⟩
+  rw [hids]
+  apply List.map_congr_left
+  intro t ht
+  obtain ⟨⟨t', v⟩, hm, rfl⟩ := List.mem_map.1 ht
+  obtain ⟨⟨u, hu⟩, _, _⟩ := (mem_trackletErrors _ _ t' v).1 hm
+  exact (toInt64_eq_wrapSwap t' (hl t' (List.of_mem_zip hu).2)).symm
+
 /-! ## Non-vacuity and the pre-repair failing inputs (evaluations of the model, i.e. tests) -/
 -- 1→2→3, 3→4, 3→5 (division at 3): tracklets {1,2,3}, {4}, {5}
 example : validateTracklets [((1:Nat),(10:Nat)),(2,10),(3,10),(4,20),(5,30)] [(1,2),(2,3),(3,4),(3,5)] = true := by
@@ -180,6 +296,11 @@ example : (nodesWithId [(1:Nat),2,3] [(10:Nat),10,0] (some [false,false,true])).
     (fun nl => validateTracklets nl [(1,2),(2,3)]) = some false := by decide
 example : (nodesWithId [(1:Nat),2,3] [(10:Nat),10,0] (some [false,false,true])).map
     (fun nl => validateTracklets nl [(1,2)]) = some true := by decide
+-- renaming: ids shifted by 2^60, tracklet ids tripled — same verdict
+example : validateTracklets (renameNl (· + 1152921504606846976) (· * 3) [((1:Nat),(10:Nat)),(2,10),(3,20)])
+    (mapEdges (· + 1152921504606846976) [(1,2),(1,3)]) = false := by decide
+-- uint64 wrap: ids ≥ 2^63 satisfy the hypotheses of `C13_uint64_wrap_verdict`
+example : ∀ x ∈ [(9223372036854775808 : Int), 18446744073709551615], InUInt64 x := by decide
 -- on a cyclic graph the validator is stricter than the definition (hence `Ranked` in `C13_iff`)
 example : validateTracklets [((1:Nat),(10:Nat)),(2,10)] [(1,2),(2,1)] = false := by decide
 
